@@ -50,6 +50,7 @@ type opDesc struct {
 	writer  int
 	proxy   bool
 	bounded bool // Join with a size bound far above the merged size (must behave like the unbounded merge)
+	failAdd bool // the block write of this operation fails (disk error)
 }
 
 type opRec struct {
@@ -374,6 +375,7 @@ func genE1(r *Run, prop string) (*e1World, *e1Config) {
 			}
 			d.proxy = r.Choose("proxy", 4) != 0
 			d.bounded = r.Choose("bounded", 4) == 0
+			d.failAdd = (d.kind == kAppend || d.kind == kToMultihash) && r.Choose("fail-add", 6) == 0
 			d.pc = 1 << uint(r.Choose("pc", 4))
 			d.writer = r.Choose("writer", len(ws))
 			pseq++
@@ -579,6 +581,14 @@ func (w *e1World) evaluate(s *sched, cfg *e1Config) {
 			}
 		}
 	}
+	for _, o := range all {
+		if o.d.kind == kAppend && o.d.failAdd {
+			r.Probe("append-with-failing-block-write")
+			if o.err == nil {
+				r.Violate(prop+":acknowledged-lost-write", "Append on %s returned an entry although its block write failed", w.names[o.d.target])
+			}
+		}
+	}
 	// a successful mutator must have produced exactly one state point
 	for _, o := range all {
 		if o.err != nil {
@@ -711,7 +721,11 @@ func (w *e1World) evaluate(s *sched, cfg *e1Config) {
 			}
 			r.Probe("join-with-several-invalid-entries")
 		case kToMultihash:
-			if o.err != nil && !match(func(c map[string]bool) bool { return len(c) == 0 }) {
+			if o.d.failAdd {
+				if o.err == nil && !match(func(c map[string]bool) bool { return len(c) == 0 }) {
+					r.Violate(prop+":acknowledged-lost-write", "ToMultihash on %s returned a manifest although its block write failed", w.names[i])
+				}
+			} else if o.err != nil && !match(func(c map[string]bool) bool { return len(c) == 0 }) {
 				r.Violate(prop+":read-error", "ToMultihash on non-empty %s failed: %v", w.names[i], o.err)
 			}
 		}
